@@ -90,6 +90,10 @@ func (fv *FV) lookupId(name string, env *Env) (Val, bool) {
 		}
 		n := "gg_" + name + "!0"
 		fv.declare(n, s)
+		if ax := "(assert (>= " + n + " 0))"; fv.u.db.GNat[name] && !fv.declS[ax] {
+			fv.declS[ax] = true
+			fv.decls = append(fv.decls, ax)
+		}
 		return Val{T: n, S: s}, true
 	}
 	return Val{}, false
